@@ -29,6 +29,9 @@ func genOp(c *Ctx, massive bool) Op {
 	case 0:
 		op.Kind = "output"
 		op.Branch = branchSets[c.Pick(4, 1, 1, 1, 1, 1, 1)]
+		if op.Branch != nil && c.Chance(1, 5) {
+			op.BranchOnly = []string{"last", "mid"}[c.Draw(2)]
+		}
 	case 1:
 		op.Kind, op.Encode = "output", 1
 	case 2:
@@ -44,6 +47,9 @@ func genOp(c *Ctx, massive bool) Op {
 	case 5:
 		op.Kind = "walk"
 		op.Branch = branchSets[c.Pick(4, 1, 1, 1, 1, 1, 1)]
+		if op.Branch != nil && c.Chance(1, 5) {
+			op.BranchOnly = []string{"last", "mid"}[c.Draw(2)]
+		}
 	case 6:
 		op.Kind = "mkdir"
 		op.Exts = extSets[c.Draw(len(extSets))]
